@@ -56,10 +56,20 @@ func Fill(t *rapid.T, label string, n int) model.Bytes {
 		return nil
 	}
 	if n <= 40 {
-		return rapid.SliceOfN(rapid.Byte(), n, n).Draw(t, label)
+		b := rapid.SliceOfN(rapid.Byte(), n, n).Draw(t, label)
+		switch rapid.IntRange(0, 9).Draw(t, label+".edge") {
+		case 8: // leading zero / all-ones octet
+			b[0] = []byte{0x00, 0xff}[int(b[0])&1]
+		case 9: // trailing zero octets
+			b[n-1] = 0
+			if n > 1 {
+				b[n-2] = b[n-2] &^ 0x7f
+			}
+		}
+		return b
 	}
 	seed := rapid.SliceOfN(rapid.Byte(), 8, 8).Draw(t, label+".seed")
-	mode := rapid.IntRange(0, 3).Draw(t, label+".mode")
+	mode := rapid.IntRange(0, 4).Draw(t, label+".mode")
 	out := make(model.Bytes, n)
 	switch mode {
 	case 0: // repeated pattern
@@ -73,6 +83,11 @@ func Fill(t *rapid.T, label string, n int) model.Bytes {
 	case 2: // constant
 		for i := range out {
 			out[i] = seed[0]
+		}
+	case 4: // octet values with a meaning somewhere in the protocol (payload type codes, flag bits, zero, all-ones)
+		hostile := []byte{0x00, 0xff, 0x80, 0x7f, 0x2e, 0x21, 0x30, 0x29, 0x01, 0x25, 0x0e, 0x8e}
+		for i := range out {
+			out[i] = hostile[int(seed[i%8]>>1+byte(i))%len(hostile)]
 		}
 	default: // LCG keyed by the seed (looks random)
 		var s uint64
@@ -156,6 +171,13 @@ func Header(t *rapid.T) model.Header {
 		Flags:    u8(t, "flags"),
 		MsgID:    rapid.Uint32().Draw(t, "msgid"),
 	}
+	if rapid.IntRange(0, 5).Draw(t, "hdr.edges") == 5 {
+		h.ISPI = rapid.SampledFrom([]uint64{0, 1, 1<<63 - 1, 1 << 63, 1<<64 - 1, h.ISPI}).Draw(t, "ispi.edge")
+		h.RSPI = rapid.SampledFrom([]uint64{0, 1, 1<<64 - 1, h.ISPI, h.RSPI}).Draw(t, "rspi.edge")
+		h.MsgID = rapid.SampledFrom([]uint32{0, 1, 0x7fffffff, 0x80000000, 0xffffffff, h.MsgID}).Draw(t, "msgid.edge")
+		h.Exchange = rapid.SampledFrom([]uint8{0, 33, 34, 37, 38, 255, h.Exchange}).Draw(t, "exch.edge")
+		h.Flags = rapid.SampledFrom([]uint8{0, 0xff, 0x10, 0x38, 0xc7, h.Flags}).Draw(t, "flags.edge")
+	}
 	if rapid.IntRange(0, 3).Draw(t, "hdr.typical") == 3 {
 		h.Major, h.Minor = 2, 0
 		h.Exchange = uint8(rapid.IntRange(34, 37).Draw(t, "exch2"))
@@ -220,8 +242,13 @@ func Payloads(t *rapid.T, o Opts) []model.Payload {
 	if !o.NoBig && n > 0 && rapid.IntRange(0, 24).Draw(t, "bigpayload") == 24 {
 		bigAt = rapid.IntRange(0, n-1).Draw(t, "bigat")
 	}
+	prevKind := ""
 	for i := 0; i < n; i++ {
 		k := rapid.SampledFrom(kinds).Draw(t, "kind")
+		if prevKind != "" && rapid.IntRange(0, 5).Draw(t, "samekind") == 5 {
+			k = prevKind // two payloads of the same kind next to each other
+		}
+		prevKind = k
 		var p model.Payload
 		if i == bigAt {
 			lim := 65535
